@@ -9,6 +9,16 @@ use crate::util::*;
 
 pub const MARKER: &[u8] = b"]]>]]>";
 
+/// pause between two chunks written by the scripted peers (ms)
+pub static GAP_MS: std::sync::atomic::AtomicU64 = std::sync::atomic::AtomicU64::new(2);
+/// cancel mode (C18): every `recv()` future is dropped after this many ms without a result and a new
+/// one is created, so that futures are abandoned while suspended in the middle of a message; 0 = off
+pub static CANCEL_SLICE_MS: std::sync::atomic::AtomicU64 = std::sync::atomic::AtomicU64::new(0);
+
+pub fn gap_ms() -> u64 {
+    GAP_MS.load(std::sync::atomic::Ordering::Relaxed)
+}
+
 #[derive(Clone, Debug, PartialEq)]
 pub enum End {
     Quiet, // peer stays connected and silent
@@ -78,6 +88,25 @@ pub fn well_framed(body: &[u8]) -> bool {
     find(&v, MARKER) == Some(body.len())
 }
 
+/// `rx.recv()` with a deadline; in cancel mode the future is dropped and re-created every slice
+async fn recv_within<R: RecvHandle>(rx: &mut R, window: Duration) -> Result<Result<bytes::Bytes, netconf::Error>, ()> {
+    let slice = CANCEL_SLICE_MS.load(std::sync::atomic::Ordering::Relaxed);
+    if slice == 0 {
+        return tokio::time::timeout(window, rx.recv()).await.map_err(|_| ());
+    }
+    let t0 = std::time::Instant::now();
+    loop {
+        if let Ok(r) = tokio::time::timeout(Duration::from_millis(slice), rx.recv()).await {
+            return Ok(r);
+        }
+        CANCELLED.fetch_add(1, std::sync::atomic::Ordering::Relaxed);
+        if t0.elapsed() > window {
+            return Err(());
+        }
+    }
+}
+pub static CANCELLED: std::sync::atomic::AtomicU64 = std::sync::atomic::AtomicU64::new(0);
+
 async fn observe<R: RecvHandle>(rx: &mut R, window: Duration, max_msgs: usize) -> Obs {
     let mut msgs = vec![];
     let mut end = "pending";
@@ -85,7 +114,7 @@ async fn observe<R: RecvHandle>(rx: &mut R, window: Duration, max_msgs: usize) -
     let mut note = String::new();
     loop {
         let c0 = thread_cpu();
-        match tokio::time::timeout(window, rx.recv()).await {
+        match recv_within(rx, window).await {
             Ok(Ok(b)) => {
                 msgs.push(b.to_vec());
                 if msgs.len() > max_msgs {
@@ -136,7 +165,7 @@ pub fn run_case(case: &Case, window: Duration) -> Obs {
         match case.transport.as_str() {
             "cli" => {
                 let exe = std::env::current_exe().unwrap();
-                let script = cli_script(case, 2);
+                let script = cli_script(case, gap_ms());
                 let args: Vec<&str> = script.iter().map(|s| s.as_str()).collect();
                 let t = match JunosLocal::verif_connect(exe.to_str().unwrap(), &args).await {
                     Ok(t) => t,
@@ -327,9 +356,18 @@ pub fn main(opts: &Opts) {
         if opts.extra.iter().any(|e| e == "only-close") {
             cases.retain(|c| c.end != End::Quiet);
         }
+        if opts.extra.iter().any(|e| e == "only-cancel") {
+            // C18 at the transport: reply futures are abandoned while suspended in the middle of a message
+            cases.retain(|c| c.end == End::Quiet && c.chunks.len() >= 2 && c.stream().len() < 4096);
+        }
     }
     if cases.iter().any(|c| c.transport == "tls") {
         crate::tlsserver::init();
+    }
+    let cancel_mode = opts.extra.iter().any(|e| e == "only-cancel") || std::env::var("VH_FRAME_CANCEL").is_ok();
+    if cancel_mode {
+        GAP_MS.store(12, std::sync::atomic::Ordering::Relaxed);
+        CANCEL_SLICE_MS.store(3, std::sync::atomic::Ordering::Relaxed);
     }
     let jobs: Vec<Case> = cases.clone();
     let t0 = std::time::Instant::now();
@@ -399,6 +437,10 @@ pub fn main(opts: &Opts) {
         if !o.note.is_empty() && o.end == "err" {
             sink.count("with_error_text");
         }
+    }
+    if cancel_mode {
+        sink.add("recv_futures_dropped_unfinished", CANCELLED.load(std::sync::atomic::Ordering::Relaxed));
+        sink.notes.push("cancel mode: every recv() future is dropped after 3 ms without a result and re-created; the peers pause 12 ms between chunks".into());
     }
     sink.add("wall_ms", t0.elapsed().as_millis() as u64);
     sink.write(opts, "frame");
